@@ -1089,6 +1089,10 @@ func runDecisionRowsOnce(c *core.Ctx, e *Env, pkgPath, defaultType string, rows 
 			sort.Strings(cs)
 			ts := tu[k]
 			sort.Strings(ts)
+			if row.existsOthers && len(ts) == 0 {
+				// the table has no atom of this shape and treats undeclared atoms as context: nothing to re-bind here
+				continue
+			}
 			if len(cs) > len(ts) || len(cs) > 3 || len(ts) > 6 {
 				feasible = false
 			}
